@@ -68,6 +68,31 @@ let hexs (b : n list) = hexs_int (of_model b)
 let nstr n = string_of_int (int_of_n n)
 let b01 b = if b then "1" else "0"
 
+(* ---- v1 printers ---- *)
+let v1_addr = function
+  | Unknown -> "U"
+  | Tcp4 (sa, da, sp, dp) -> Printf.sprintf "4/%s/%s/%s/%s" (hexs sa) (hexs da) (nstr sp) (nstr dp)
+  | Tcp6 (sa, da, sp, dp) -> Printf.sprintf "6/%s/%s/%s/%s" (hexs sa) (hexs da) (nstr sp) (nstr dp)
+
+let cs b = if b then "crate" else "std"
+let v1_err = function
+  | InvalidPrefix -> "InvalidPrefix" | Partial1 -> "Partial" | MissingPrefix -> "MissingPrefix"
+  | MissingNewLine -> "MissingNewLine" | MissingProtocol -> "MissingProtocol"
+  | MissingSourceAddress -> "MissingSourceAddress" | MissingDestinationAddress -> "MissingDestinationAddress"
+  | MissingSourcePort -> "MissingSourcePort" | MissingDestinationPort -> "MissingDestinationPort"
+  | HeaderTooLong -> "HeaderTooLong" | InvalidProtocol -> "InvalidProtocol" | InvalidSuffix -> "InvalidSuffix"
+  | InvalidSourceAddress -> "InvalidSourceAddress" | InvalidDestinationAddress -> "InvalidDestinationAddress"
+  | InvalidSourcePort b -> Printf.sprintf "InvalidSourcePort(%s)" (cs b)
+  | InvalidDestinationPort b -> Printf.sprintf "InvalidDestinationPort(%s)" (cs b)
+let v1_berr = function BParse e -> v1_err e | BInvalidUtf8 -> "InvalidUtf8"
+
+let flags inc = Printf.sprintf " i%sc%s" (b01 inc) (b01 (not inc))
+
+let v1_hdr h = Printf.sprintf "OK %s %s" (hexs h.text) (v1_addr h.addr)
+let show_v1b r = (match r with Ok h -> v1_hdr h | Err e -> "ERR " ^ v1_berr e) ^ flags (is_incomplete1 r)
+let show_v1s r = (match r with Ok h -> v1_hdr h | Err e -> "ERR " ^ v1_err e) ^ flags (is_incomplete1s r)
+let show_v1a r = (match r with Ok a -> "OK " ^ v1_addr a | Err e -> "ERR " ^ v1_err e) ^ flags (is_incomplete1s r)
+
 (* ---- v2 printers ---- *)
 let v2_addr = function
   | AUnspec -> "N"
@@ -93,8 +118,6 @@ let fam_idx = function FUnspec -> 0 | FIPv4 -> 1 | FIPv6 -> 2 | FUnix -> 3
 
 let v2_hdr h =
   Printf.sprintf "OK %s v2 c%d p%d %s" (hexs h.hbytes) (cmd_code h.hcommand) (proto_code h.hprotocol) (v2_addr h.haddresses)
-
-let flags inc = Printf.sprintf " i%sc%s" (b01 inc) (b01 (not inc))
 
 let show_v2 r =
   match r with
@@ -132,6 +155,40 @@ let views2_one h =
     (nstr (family_to_u16 (h_address_family h)))
     (nstr (version_or_command h.hcommand)) (nstr (protocol_or_family h.hprotocol (h_address_family h)))
     (nstr (tlvs_len (h_tlv_bytes h))) (b01 (tlvs_is_empty (h_tlv_bytes h)))
+
+let show_auto r =
+  (match r with RV1 r -> "V1 " ^ show_v1b r | RV2 r -> "V2 " ^ show_v2 r)
+  ^ Printf.sprintf " i%sc%s" (b01 (is_incomplete_a r)) (b01 (is_complete_a r))
+
+let views1_one h =
+  Printf.sprintf "proto=%s aproto=%s astr=%s str=%s" (hexs (h1_protocol h)) (hexs (addrs_protocol h.addr))
+    (hexs (h1_addresses_str h)) (hexs (h1_to_string h))
+
+let addr1 (f : string list) : addrs1 =
+  match f with
+  | ["U"] -> Unknown
+  | ["4"; sa; da; sp; dp] -> Tcp4 (mbytes sa, mbytes da, n_of_int (int_of_string sp), n_of_int (int_of_string dp))
+  | ["6"; sa; da; sp; dp] -> Tcp6 (mbytes sa, mbytes da, n_of_int (int_of_string sp), n_of_int (int_of_string dp))
+  | _ -> failwith "bad addr1"
+
+let show_fmt1 a =
+  let s = fmt1 a in
+  let rs = p1s s in
+  Printf.sprintf "S=%s B=%s S=%s H=%s A=%s HS=%s" (hexs s) (show_v1b (p1 s)) (show_v1s rs)
+    (show_v1s (header_from_str s)) (show_v1a (addresses_from_str s))
+    (match rs with Ok h -> hexs (h1_to_string h) | Err _ -> "ERR")
+
+let show_std kind arg =
+  let b = mbytes arg in
+  match kind with
+  | "u16" -> (match parse_u16 b with Some n -> "OK " ^ nstr n | None -> "ERR")
+  | "ip4" -> (match parse_ipv4 b with Some o -> "OK " ^ hexs o | None -> "ERR")
+  | "ip6" -> (match parse_ipv6 b with Some o -> "OK " ^ hexs o | None -> "ERR")
+  | "fmt4" -> "S=" ^ hexs (fmt_ipv4 b)
+  | "fmt6" -> "S=" ^ hexs (fmt_ipv6 b)
+  | "fmtu16" -> (match b with [h; l] -> "S=" ^ hexs (fmt_dec (n_of_int (int_of_n h * 256 + int_of_n l))) | _ -> failwith "fmtu16")
+  | "utf8" -> "V=" ^ b01 (utf8_valid b)
+  | k -> failwith ("bad std kind " ^ k)
 
 (* ---- payload / builder syntax (same as the harness) ---- *)
 let types = [| ALPN; Authority; CRC32C; NoOp; UniqueId; SSL; SSLVersion; SSLCommonName; SSLCipher;
@@ -248,6 +305,17 @@ let show_write pre p =
 let model_line (f : string list) : string =
   match f with
   | ["v2"; x] -> show_v2 (p2 (mbytes x))
+  | ["v1b"; x] -> show_v1b (p1 (mbytes x))
+  | ["v1s"; x] -> let x = mbytes x in if utf8_valid x then show_v1s (p1s x) else "NOTUTF8"
+  | ["v1fh"; x] -> let x = mbytes x in if utf8_valid x then show_v1s (header_from_str x) else "NOTUTF8"
+  | ["v1fa"; x] -> let x = mbytes x in if utf8_valid x then show_v1a (addresses_from_str x) else "NOTUTF8"
+  | ["auto"; x] -> show_auto (pa (mbytes x))
+  | ["views1"; x] ->
+    (match p1 (mbytes x) with
+     | Ok h -> Printf.sprintf "B[%s] O[%s]" (views1_one h) (views1_one (h1_to_owned h))
+     | Err _ -> "REJ")
+  | ["fmt1"; a] -> show_fmt1 (addr1 (split_on ',' a))
+  | ["std"; k; a] -> show_std k a
   | ["tlv"; x] -> show_tlvs (mbytes x)
   | ["htlv"; x] -> (match p2 (mbytes x) with Ok h -> show_tlvs (h_tlv_bytes h) | Err _ -> "REJ")
   | ["views2"; x] ->
